@@ -40,7 +40,7 @@ def finish(a):
     if salg != 1 and a["alg"]: sc["alg"] = salg
     d = P.case(vg=True, vc="control", state="vec2", **a)
     d["scales"] = sc
-    d["cons"] = [P.con("bc0", scale=scon), P.con("x_le", scale=scon), P.con("xu_between", scale=scon), P.con("x_vec_ge", scale=scon), P.con("x_vec_mixed", scale=scon), P.con("vc_ge")]
+    d["cons"] = [P.con("bc0", scale=scon), P.con("x_le", scale=scon), P.con("xu_between", scale=scon), P.con("x_vec_ge", scale=scon), P.con("x_vec_mixed", scale=scon), P.con("x_vec_mixed_lb", scale=scon), P.con("vc_ge")]
     d["obj"] = ["mayer_tf", "integral", "vg", "integral_vc"] + (["int_z"] if a["alg"] else [])
     d["init"] = [["x", "vec", [0.8, 0.8]], ["u", "const", -0.3], ["vg", "const", 0.6], ["vc", "const", 0.45]] + ([["z", "const", 0.7]] if a["alg"] else [])
     return d
@@ -128,6 +128,8 @@ def semantics(case, res, tags):
     chk = [("U", want["u"]), ("vg", want["vg"]), ("vc", want["vc"])]
     if d["method"] != "SS":
         chk.append(("X", want["x"]))
+    if d["alg"]:
+        chk.append(("Zr", 0.7))      # the guess of the (scaled) algebraic variable, at the collocation roots
     for key, val in chk:
         if key in qi and not NL.close(qi[key], np.full(qi[key].shape, val), 1e-9):
             vios.append(dict(sig="value:x0:%s" % key, tags=tags, detail="starting %s = %s, guess %g (physical units)" % (key, qi[key].reshape(-1)[:4], val)))
